@@ -35,9 +35,11 @@ class Resources:
     """Per body: list of (root local, field prefix of the Tds) for every way the body can reach
     a triangulation's storage: pointer parameters, and (for closures) captured pointers."""
 
-    def __init__(self, prog, mod):
+    def __init__(self, prog, mod, prefix_map=None):
         self.prog = prog
         self.mod = mod
+        # pointee type head -> field path of the tracked resource below it (default: the Tds)
+        self.prefix_map = STORAGE_PREFIX if prefix_map is None else prefix_map
         self.res = {}
         for q, b in prog.bodies.items():
             if b.kind != 'closure':
@@ -62,8 +64,8 @@ class Resources:
         out = []
         for i in range(1, b.nargs + 1):
             head, mut = pointee_head(b.locals[i])
-            if head in STORAGE_PREFIX:
-                out.append({'root': i, 'prefix': STORAGE_PREFIX[head], 'mut': mut, 'param': i, 'cap': None})
+            if head in self.prefix_map:
+                out.append({'root': i, 'prefix': self.prefix_map[head], 'mut': mut, 'param': i, 'cap': None})
         return out
 
     def _closure_resources(self, b):
@@ -211,6 +213,9 @@ class PairEngine:
             if blk.cleanup:
                 continue
             for s in blk.stmts:
+                pre = self.stmt_events(q, r, body, al, s)
+                if pre:
+                    ev[blk.idx].extend(pre)
                 root, fields, derefd = al.norm(s.place)
                 if derefd and self._touches_storage(r, root, fields):
                     if (self.snapshot_resets and tp is not None and root == r['root'] and fields == tp
@@ -468,7 +473,7 @@ class PairEngine:
         if 1 <= local <= body.nargs:
             # a `&Tds` snapshot parameter: accepted, the obligation moves to the callers
             head, _ = pointee_head(body.locals[local])
-            return head in STORAGE_PREFIX
+            return head in self.R.prefix_map and self.param_snapshot_ok(body, local, r)
         defs = body.defs.get(local, [])
         if not defs:
             return False
@@ -533,6 +538,14 @@ class PairEngine:
                 edges |= (cf.err_edges if which == 'err' else cf.ok_edges)
         self.cut[q] = edges
         return edges
+
+    def param_snapshot_ok(self, body, local, r):
+        """Hook: may pointer parameter `local` stand for a snapshot of resource r?"""
+        return True
+
+    def stmt_events(self, q, r, body, al, s):
+        """Hook for subclasses: events of statement s that precede its own write event."""
+        return None
 
     def extra_block_events(self, q, r, body, al, blk):
         """Hook for subclasses: additional events of a block (list)."""
